@@ -678,3 +678,99 @@ def c15_flow_rule(m):
                "source %s at `%s` without having passed replace_omp_sentinels: an enabled `c$`/`!$` line reached that way is dropped as a comment"
                % (what, A.text(node)[:60]), m.loc(gsl, node))
     return r
+
+
+# =================================================================================================
+# anchoring of alternations (the F17 class): `\Aa|b\Z` anchors only the first/last alternative
+# =================================================================================================
+def uneven_anchors(pattern, flags):
+    """None when fine; otherwise a description of a top-level alternation whose alternatives are not anchored alike."""
+    from re import _parser as sp
+    from re import _constants as sc
+    try:
+        tree = sp.parse(pattern, flags)
+    except Exception:
+        return None
+    items = list(tree)
+    if len(items) != 1 or items[0][0] is not sc.BRANCH:
+        return None
+    alts = items[0][1][1]
+
+    def starts(a):
+        return len(a) > 0 and a[0][0] is sc.AT and a[0][1] in (sc.AT_BEGINNING_STRING, sc.AT_BEGINNING)
+
+    def ends(a):
+        return len(a) > 0 and a[-1][0] is sc.AT and a[-1][1] in (sc.AT_END_STRING, sc.AT_END)
+    s = [starts(a) for a in alts]
+    e = [ends(a) for a in alts]
+    if any(s) and not all(s):
+        return "%d of %d alternatives start with a begin anchor" % (sum(s), len(s))
+    if any(e) and not all(e):
+        return "%d of %d alternatives end with an end anchor" % (sum(e), len(e))
+    return None
+
+
+def anchor_rule(m, rid):
+    import re
+    r = RuleResult(rid, "no full-match pattern anchors only some alternatives of a top-level alternation (anchors bind tighter than '|')")
+    r.floor = 150
+    seen = set()
+
+    def check(origin, pat, flags, where):
+        if not isinstance(pat, str) or (origin, pat) in seen:
+            return
+        seen.add((origin, pat))
+        r.instances += 1
+        why = uneven_anchors(pat, flags or 0)
+        r.ob(why is None, "%s: %r" % (origin, pat[:40]) if r.instances % 40 == 0 else None)
+        if why:
+            r.fail("%s|uneven-anchors" % origin, "%s: in %r %s: the anchor belongs to that alternative only, so the others match a mere "
+                   "prefix/suffix of the text (e.g. 'integer, intent(in)) :: a' was accepted through such a pattern)"
+                   % (origin, pat[:70], why), where)
+    # pattern_tools objects: the plain pattern and the one abs() compiles
+    for name, p in sorted(m.snap["patterns"].items()):
+        check("pattern_tools.%s" % name, p.get("compiled_pattern"), p.get("compiled_flags"), "src/fparser/two/pattern_tools.py")
+    # what abs() would build for every pattern object (the anchored form): interpret Pattern.__abs__ on each pattern text
+    pk = [k for k in m.classes if k.endswith(":Pattern") and "pattern_tools" in k]
+    if pk:
+        f = m.method(pk[0], "__abs__")
+        if f is None:
+            r.error("pattern_tools.Pattern.__abs__ vanished")
+        else:
+            ev = PE.Evaluator({"Pattern": lambda label, pattern, optional=0, flags=0, value=None: PE.Obj({"label": label, "pattern": pattern})})
+            made = 0
+            for name, p in sorted(m.snap["patterns"].items()):
+                if not isinstance(p.get("pattern"), str):
+                    continue
+                try:
+                    obj = PE.Obj({"pattern": p["pattern"], "label": p.get("label"), "flags": p.get("flags", 0), "_flags": p.get("flags", 0),
+                                  "value": p.get("value")})
+                    res = ev.run_function(f.node, [obj])
+                except (PE.Unsupported, PE.PyRaise):
+                    continue
+                if isinstance(res, PE.Obj):
+                    try:
+                        anchored = res.get(ev, "pattern")
+                    except Exception:
+                        continue
+                    made += 1
+                    check("abs(pattern_tools.%s)" % name, anchored, p.get("flags", 0), m.loc(f))
+            r.notes.append("anchored forms built by interpreting Pattern.__abs__: %d" % made)
+            if made < 50:
+                r.error("Pattern.__abs__ could be interpreted for only %d patterns (anchor changed)" % made)
+    # regexes stored on classes and compiled in functions
+    for k, c in sorted(m.classes.items()):
+        if "/tests/" in (c.get("file") or ""):
+            continue
+        for an, d in c["own"].items():
+            for p in d.get("patterns") or []:
+                if p.get("pattern"):
+                    check("%s.%s" % (c["name"], an), p["pattern"], p.get("flags", 0), m.class_loc(k))
+    for (path, q), f in sorted(m.funcs.items()):
+        if "/tests/" in path:
+            continue
+        for c in A.calls(f.node):
+            d = A.dotted(c.func) or ""
+            if d in ("re.compile", "re.match", "re.search", "re.fullmatch") and c.args and isinstance(A.const(c.args[0]), str):
+                check("%s:%s" % (q, c.lineno), A.const(c.args[0]), 0, m.loc(f, c))
+    return r
